@@ -221,8 +221,9 @@ HW(v, st, i) ==
       [] v.k = "list" -> JArr(HWItems(v.items, st, 1, i))
       [] v.k = "dict" -> O((IF st.dictKind THEN <<Kind("dict")>> ELSE <<>>) \o HWTags(v.tags, st, 1, i), st)
       [] v.k = "grid" ->
-           LET verMem == IF st.meta = "ver" THEN <<<<k_("ver"), JStr(v.ver)>>>> ELSE <<>>
-               metaMem == IF v.meta = <<>> /\ st.meta = "absent" THEN <<>>
+           \* the version lives in the meta; "3.0" is what an absent version means, any other version has to be written
+           LET verMem == IF st.meta = "ver" \/ v.ver # k_("3.0") THEN <<<<k_("ver"), JStr(v.ver)>>>> ELSE <<>>
+               metaMem == IF v.meta = <<>> /\ st.meta = "absent" /\ verMem = <<>> THEN <<>>
                           ELSE <<<<k_("meta"), O(verMem \o HWTags(v.meta, st, 1, i), st)>>>>
                cols == [c \in 1..Len(v.cols) |->
                           O(<<<<k_("name"), JStr(v.cols[c].name)>>>>
